@@ -1137,8 +1137,7 @@ class VM:
             if key_str == "BYTES_PER_ELEMENT":
                 return obj._element_size
             if key_str == "buffer":
-                # Return the underlying buffer if it exists
-                return getattr(obj, "_buffer", None) or UNDEFINED
+                return self._typed_array_buffer(obj)
             # Built-in typed array methods
             typed_array_methods = ["toString", "join", "subarray", "set"]
             if key_str in typed_array_methods:
@@ -1809,6 +1808,18 @@ class VM:
         }
         return methods.get(method, lambda *args: UNDEFINED)
 
+    @staticmethod
+    def _typed_array_buffer(arr: JSTypedArray) -> JSArrayBuffer:
+        """The buffer of a typed array; one created without a buffer gets one
+        holding its elements when it is first asked for."""
+        if arr._buffer is None:
+            elements = list(arr._data)
+            arr._buffer = JSArrayBuffer(len(elements) * arr._element_size)
+            arr._byte_offset = 0
+            for i, value in enumerate(elements):
+                arr._write_to_buffer(i, value)
+        return arr._buffer
+
     def _make_typed_array_method(self, arr: JSTypedArray, method: str) -> Any:
         """Create a bound typed array method."""
 
@@ -1844,14 +1855,8 @@ class VM:
 
             # A subarray is a view on the storage of the original: give an
             # array that was created without a buffer one holding its elements
-            if arr._buffer is None:
-                elements = list(arr._data)
-                arr._buffer = JSArrayBuffer(len(elements) * arr._element_size)
-                arr._byte_offset = 0
-                for i, value in enumerate(elements):
-                    arr._write_to_buffer(i, value)
             result = type(arr)(max(0, end - begin))
-            result._buffer = arr._buffer
+            result._buffer = self._typed_array_buffer(arr)
             result._byte_offset = arr._byte_offset + begin * arr._element_size
             return result
 
